@@ -160,7 +160,7 @@ def _decode_struct(buffer: "_Buffer", fcp: "ref:FcpV2", name: "str") -> "dyn":
                     and starts_struct(fcp, name, buffer.gbits, old(buffer.bitaddr), v),
                     result == v and buffer.bitaddr == old(buffer.bitaddr) + len(wire_struct(fcp, name, v))))
     ghost_arg("_decode", v=dyn_get(v, field.name))
-    option("no_unfold", ["conforms", "starts", "wire"])
+    option("no_unfold", ["conforms", "starts", "wire", "wf_type"])
     option("loop0_locals", {"data": "dyn"})
     loop(0, over="sorted(struct.fields, key=lambda field: field.field_id)",
          invariant=lambda it: buffer.bitaddr >= old(buffer.bitaddr) and d_is_dict(data) and implies(
